@@ -1,17 +1,23 @@
 // Harnesses for lsp4spl/src/features/semantic_tokens.rs (property C15: well-formedness and
 // lexical-class clauses).  Appended as `#[cfg(kani)] mod __verif { use super::*; ... }`;
-// collect_error, map_token, create_semantic_token are the REAL private fns; as_position is the
-// real one from document.rs.  Oracle helpers are shared with the C08 harness module.
+// collect_error, collect_type_dec, collect_proc_dec, map_token, create_semantic_token are the REAL
+// private fns; as_position is the real one from document.rs.  Oracle helpers are shared with the
+// C08 harness module.
 //
-// Decided here: for any text and any increasing sequence of tokens inside it,
-//   S1  the delta-encoded stream produced by consecutive collect_error calls that share
-//       `previous_token_pos` (what semantic_tokens() does across global declarations) decodes to the
-//       LSP positions (UTF-16 columns) of exactly the tokens that carry a lexical class, in order;
-//       no u32 underflow / panic
-//   S2  `length` is the UTF-16 length of the token's text
+// Decided here:
+//   S1-chain  (any valid UTF-8 text of bounded length, two tokens on symbolic char-boundary ranges)
+//       the deltas produced by map_token/create_semantic_token for two consecutive classified
+//       tokens decode to the LSP positions (UTF-16 columns) of both token starts; no u32 underflow
+//   S2  `length` is the UTF-16 length of the token's text (asserted in every S1 harness)
+//   S1-collect / S1-typedec / S1-procdec  (CONCRETE 13-byte text, one token of symbolic kind and
+//       range per declaration, two consecutive declarations sharing `previous_token_pos` - what
+//       semantic_tokens() does across global declarations) the stream emitted by the real
+//       collect_error / collect_type_dec / collect_proc_dec (empty symbol table) contains exactly
+//       the tokens that carry a class and decodes to their LSP positions
 //   S3  keyword -> KEYWORD, Int/Hex/Char -> NUMBER, Comment -> COMMENT (index into the announced
-//       legend TOKEN_TYPES), every other kind -> no token from the lexical mapping
-// Binding kinds / declaration modifier need the symbol table: outside.
+//       legend TOKEN_TYPES), every other kind -> no token from the lexical mapping; identifiers in
+//       type declarations -> TYPE
+// Binding kinds of resolved identifiers / declaration modifier need a populated symbol table: outside.
 
 use crate::document::__verif::{is_boundary, ref_position, sym_text, u16_units};
 use spl_frontend::tokens::IntResult;
